@@ -106,6 +106,14 @@ def run(tier, seed, build, res):
                 res.failures.append(('c06:%r' % s, c.json(),
                                      'output %r, the documented table gives %r'
                                      % ((im[1][1], im[1][2]), want)))
+    # the same strings, and snippets of /repo's tests, evaluated by Coq itself
+    import kernelcheck, seeds
+    ks = rng.sample(cases, min(len(cases), 150 if tier == 'quick' else 1500))
+    sd = [x for x in seeds.load() if len(x) <= 300]
+    ks += [parsecase.T2T(x, lang=rng.choice(['en', 'de']), pack='', seqs=rng.random() < 0.2,
+                         files={})
+           for x in rng.sample(sd, min(len(sd), 80 if tier == 'quick' else 300))]
+    kernelcheck.run(ks, res)
     options_stream(rng, res, 300 if tier == 'quick' else 6000)
     cli_stream(rng, res, 6 if tier == 'quick' else 120)
     # the table of the property text against the table of the code
